@@ -83,6 +83,7 @@ typedef struct { vp_rng_t r; prog_t *p; int fidx; int budget; int depth; int nal
 #define PF_NO_LD 16
 #define PF_NO_IRRED 32
 #define PF_NO_JMPI 64
+#define PF_INLINE_BIAS 256  /* C04: more calls, callers in front of their callees, frames allocated first thing and used: what inlining rewrites */
 #define PF_CONST_INIT 128   /* initialise registers with literal constants (everything constant-foldable: many unreachable blocks at -O2) */
 
 static const int64_t pg_ints[] = {0, 1, -1, 2, 3, 7, 8, 16, 31, 32, 63, 64, 127, 128, -128, 255, 256, 32767, -32768, 65535, 65536, 2147483647LL, 2147483648LL, -2147483648LL,
@@ -114,6 +115,7 @@ static opnd_t pg_mem (pgen_t *g, int vt) {
     return o;
   }
   o.base = (int) vp_below (&g->r, nb);
+  if ((g->feat & PF_INLINE_BIAS) && g->nalloca >= 1 && vp_chance (&g->r, 40)) o.base = 2; /* the function's own stack block */
   o.scale = 1 << vp_below (&g->r, 4);
   o.idx = -1;
   if (vp_chance (&g->r, 60)) { /* index = masked int reg: idx*scale <= 15*8 = 120 */
@@ -216,6 +218,7 @@ static void pg_ctl_stmt (pgen_t *g) {
   int w = (int) vp_below (&g->r, 100);
   prog_t *p = g->p; func_t *f = &p->f[g->fidx];
   if (g->depth >= 3) w = 99 - (int) vp_below (&g->r, 20); /* only leaf-ish things deep inside */
+  if ((g->feat & PF_INLINE_BIAS) && g->fidx > 0 && vp_chance (&g->r, 35)) w = 55; /* a call */
   if (w < 22) { /* if / if-else on an integer compare-and-branch or bt/bf */
     static const MIR_insn_code_t br[] = {MIR_BEQ, MIR_BNE, MIR_BLT, MIR_BLE, MIR_BGT, MIR_BGE, MIR_UBLT, MIR_UBGE, MIR_BEQS, MIR_BNES, MIR_BLTS, MIR_BGES, MIR_UBLTS, MIR_UBGTS, MIR_BT, MIR_BF, MIR_BTS, MIR_BFS, MIR_DBLT, MIR_DBGE, MIR_DBNE};
     node_t *n = pg_new (N_IF); if (!n) return;
@@ -280,7 +283,7 @@ static void pg_ctl_stmt (pgen_t *g) {
     n->code = ov[vp_below (&g->r, 8)];
     int sgn = n->code == MIR_MULO || n->code == MIR_MULOS, uns = n->code == MIR_UMULO || n->code == MIR_UMULOS;
     n->n = sgn ? (int) vp_below (&g->r, 2) : uns ? 2 + (int) vp_below (&g->r, 2) : (int) vp_below (&g->r, 4);
-    n->d = pg_reg (V_I, (int) vp_below (&g->r, PG_GEN)); n->a = pg_rnd_reg (g, V_I); n->b = vp_chance (&g->r, 60) ? pg_rnd_reg (g, V_I) : pg_imm_i (pg_int (g));
+    n->d = pg_reg (V_I, (int) vp_below (&g->r, PG_GEN)); n->a = vp_chance (&g->r, 15) ? pg_imm_i (pg_int (g)) : pg_rnd_reg (g, V_I); n->b = vp_chance (&g->r, 60) ? pg_rnd_reg (g, V_I) : pg_imm_i (pg_int (g));
     n->variant = !sem_is32 (n->code) && vp_chance (&g->r, 40); /* a register move between the insn and the branch */
     p->n_ovf++;
     pg_emit (n);
@@ -332,14 +335,14 @@ static void pg_gen_prog (prog_t *p, uint64_t seed, long idx, unsigned feat, int 
   memset (p, 0, sizeof *p); memset (g, 0, sizeof G);
   pg_pool_used = 0;
   g->r = vp_case_rng (seed, 0x5052, (uint64_t) idx); g->p = p; g->feat = feat; p->feat = feat;
-  p->nf = (int) vp_range (&g->r, 1, getenv ("VP_MAXF") ? atoi (getenv ("VP_MAXF")) : PG_MAXFUNC);
+  p->nf = (int) vp_range (&g->r, (feat & PF_INLINE_BIAS) ? 3 : 1, getenv ("VP_MAXF") ? atoi (getenv ("VP_MAXF")) : PG_MAXFUNC);
   p->nmodules = (int) vp_range (&g->r, 1, max_modules);
   for (int i = 0; i < PG_BUF; i++) p->data_init[i] = (uint8_t) vp_next (&g->r);
   static const MIR_type_t nt[] = {MIR_T_I64, MIR_T_I64, MIR_T_I64, MIR_T_I8, MIR_T_U8, MIR_T_I16, MIR_T_U16, MIR_T_I32, MIR_T_U32, MIR_T_U64};
   for (int fi = 0; fi < p->nf; fi++) {
     func_t *f = &p->f[fi];
     g->fidx = fi; g->depth = 0; g->nalloca = 0; memset (g->have_last, 0, sizeof g->have_last);
-    f->frame_first = vp_chance (&g->r, 35); if (f->frame_first) { g->nalloca = 1; f->has_alloca = 1; p->n_alloca++; }
+    f->frame_first = vp_chance (&g->r, (feat & PF_INLINE_BIAS) ? 65 : 35); if (f->frame_first) { g->nalloca = 1; f->has_alloca = 1; p->n_alloca++; }
     f->module = (int) vp_below (&g->r, p->nmodules);
     int last = fi == p->nf - 1;
     /* the last function is the entry: i64 entry (p buf, i64 a, i64 b) */
@@ -361,7 +364,7 @@ static void pg_gen_prog (prog_t *p, uint64_t seed, long idx, unsigned feat, int 
     p->n_nodes = pg_pool_used;
   }
   for (int i = 0; i < p->nf; i++) p->order[i] = i;
-  p->permuted = vp_chance (&g->r, 40);
+  p->permuted = vp_chance (&g->r, (feat & PF_INLINE_BIAS) ? 75 : 40);
   if (p->permuted) for (int i = p->nf - 1; i > 0; i--) { int j = (int) vp_below (&g->r, (uint64_t) i + 1), x = p->order[i]; p->order[i] = p->order[j]; p->order[j] = x; }
   p->shape = vp_hash_mix (vp_hash_mix ((uint64_t) p->nf * 131 + p->n_calls * 17 + p->n_loops * 7 + p->n_switch * 5 + p->n_irred * 3 + p->n_ovf, (uint64_t) p->n_nodes), (uint64_t) p->n_fp * 1009 + p->n_alloca * 13 + p->n_narrow);
 }
